@@ -356,6 +356,15 @@ def run_c09(tier, seed, replay=None):
         if rnd.random() < 0.4:
             body.append(rnd.choice([["eq", vs[0], vs[1]], ["neq", vs[0], 9], ["cond", ["eq", vs[0], 2], ["eq", vs[1], 2]]]))
         hs.append(mk_case([], ["q"] + vs, body, maxans=4, budget=3000))
+    # finite-domain programs whose propagation visits hash-ordered collections: one unification binding several variables, some
+    # with a domain and some without; the answer multiset must be the same in every run (sequence: the order is the labeling order)
+    for _ in range(max(6, n // 25)):
+        lo = rnd.randint(0, 2)
+        k = lo + rnd.randint(0, 3)
+        uni = rnd.choice([["eq", ["list", "a", "q"], ["list", "b", k]], ["eq", ["list", "q", "a"], ["list", "r", "b"]],
+                          ["eq", ["list", "a", "q", "b"], ["list", 1, "r", "a"]], ["eq", ["list", "a", "b", "r"], ["list", "b", 7, "q"]]])
+        body = [["fresh", ["a", "b"], ["dom", "q", ["i", lo, lo + 2]], ["dom", "r", ["i", lo, lo + 3]], uni]]
+        hs.append(mk_case([], ["q", "r"], body, maxans=30, budget=4000, mode="bag", fd=True))
     cases = hs + cases            # among the first cases: they are also re-run in fresh processes
     for c in hs * 3:
         cases.append(dict(c))
@@ -377,7 +386,7 @@ def run_c09(tier, seed, replay=None):
             key = c["line"]
             if key in first:
                 j = first[key]
-                if seq_of(impl[j]) != seq_of(i) or impl[j].end != i.end:
+                if (bag_of(seq_of(impl[j])) != bag_of(seq_of(i)) if c.get("fd") else seq_of(impl[j]) != seq_of(i)) or impl[j].end != i.end:
                     fails.append({"case_index": k, "what": "two runs of the same query in one process differ", "first_run": impl[j].raw[:2000]})
             else:
                 first[key] = k
@@ -389,7 +398,8 @@ def run_c09(tier, seed, replay=None):
             ra, rb = P.Result(a), P.Result(b)
             if ra.error or rb.error or impl[k].error:
                 continue
-            if seq_of(ra) != seq_of(impl[k]) or seq_of(rb) != seq_of(impl[k]) or ra.end != impl[k].end:
+            same = (lambda x, y: bag_of(seq_of(x)) == bag_of(seq_of(y))) if c.get("fd") else (lambda x, y: seq_of(x) == seq_of(y))
+            if not same(ra, impl[k]) or not same(rb, impl[k]) or ra.end != impl[k].end:
                 fails.append({"case_index": k, "what": "runs in fresh processes differ", "other_run": a[:2000]})
         return fails
     return pcheck.run_check("C09", tier, seed, cases, "exact", oracle, cone=CONE, replay=replay,
